@@ -212,7 +212,7 @@ def save_replay(pid, name, exe, extra=None):
     os.makedirs(d, exist_ok=True)
     path = os.path.join(d, '%s-%s.json' % (pid, name))
     json.dump(dict(property=pid, variant=exe.variant, alloc=exe.alloc, fill=exe.fill, label=exe.label,
-                   script=exe.script, suite_src=getattr(exe, 'suite_src', None),
+                   script=exe.script, suite_src=getattr(exe, 'suite_src', None), suite_args=getattr(exe, 'suite_args', None),
                    oracle=bool(REPLAY_CTX.get('oracle')) and bool(getattr(exe, 'oracle', True)),
                    relax=list(REPLAY_CTX.get('relax', ('live',))), known=REPLAY_CTX.get('known'), kbits=REPLAY_CTX.get('kbits'),
                    extra=extra), open(path, 'w'), indent=1)
